@@ -1821,10 +1821,34 @@ impl<'a> CompositionGraphEncoder<'a> {
         for n in import_nodes {
             let node = &self.0.graph[n];
             if let NodeKind::Import(name) = &node.kind {
-                explicit_imports.insert(name.as_str(), n);
                 aggregator = aggregator
                     .aggregate(name, self.0.types(), node.item_kind, &mut checker)
-                    .unwrap();
+                    .map_err(|e| {
+                        // The other party of the conflict is whatever first put an import on
+                        // the same semver track: an instantiation's implicit import or an
+                        // earlier explicit import.
+                        let first = instantiations
+                            .iter()
+                            .filter(|(other, _)| wac_types::are_semver_compatible(other, name))
+                            .map(|(_, index)| *index)
+                            .chain(
+                                explicit_imports
+                                    .iter()
+                                    .filter(|(other, _)| {
+                                        wac_types::are_semver_compatible(other, name)
+                                    })
+                                    .map(|(_, index)| *index),
+                            )
+                            .min()
+                            .unwrap_or(n);
+                        EncodeError::ImportTypeMergeConflict {
+                            import: name.clone(),
+                            first: NodeId(first),
+                            second: NodeId(n),
+                            source: e,
+                        }
+                    })?;
+                explicit_imports.insert(name.as_str(), n);
             }
         }
         Ok(aggregator)
